@@ -251,3 +251,192 @@ def check_realloc_site(tu, f, call, ptr, old, new):
     if not any(F.src(F.strip(w['c'][1])) == newcount for w in after if w['k'] == 'BinaryOperator'):
         return False, '%s->size is not set to the new element count %s after the reallocation' % (base, newcount)
     return True, 'old = sizeof(T) * %s->size, size updated to %s after the call' % (base, newcount)
+
+
+# ---------------------------------------------------------------------------------------------
+# RF2 container create/destroy pairing
+# ---------------------------------------------------------------------------------------------
+import re as _re
+CRE = _re.compile(r'^(VARR_.*create|HTAB_.*_create|bitmap_create2?)$')
+DES = _re.compile(r'^(VARR_.*destroy|HTAB_.*_destroy|bitmap_destroy)$')
+
+
+def _target_of_create(f, n):
+    c = n['callee']
+    if c.startswith('bitmap'):
+        p = f.parent_of(n)
+        while p is not None and p['k'] in F.CASTS:
+            p = f.parent_of(p)
+        if p is not None and p['k'] == 'BinaryOperator' and p['op'] == '=':
+            return F.strip(p['c'][0])
+        if p is not None and p['k'] == 'DeclStmt':
+            for d in p['decls']:
+                if d.get('init') is not None and any(x is n for x in F.walk(d['init'])):
+                    return {'k': 'DeclRefExpr', 'n': d['n'], 'dk': 'local', 'i': -1}
+        return None
+    a = F.strip(F.call_args(n)[0])
+    if a['k'] == 'UnaryOperator' and a['op'] == '&':
+        return F.strip(a['c'][0])
+    return None
+
+
+def _key(f, tgt):
+    if tgt is None:
+        return None
+    if tgt['k'] == 'MemberExpr':
+        return ('field', tgt.get('rec'), tgt['n'])
+    if tgt['k'] == 'ArraySubscriptExpr':
+        b = F.strip(tgt['c'][0])
+        if b['k'] == 'MemberExpr':
+            return ('field', b.get('rec'), b['n'] + '[]')
+    if tgt['k'] == 'UnaryOperator' and tgt['op'] == '*':
+        return ('deref', f.name, F.src(tgt))
+    if tgt['k'] == 'DeclRefExpr':
+        return ('local', f.name, tgt['n'])
+    return ('other', f.name, F.src(tgt))
+
+
+def _param_kept(g, pname):
+    """does function g store its parameter somewhere that outlives the call (field, container, return)?"""
+    for x in g.walk():
+        if x['k'] == 'DeclRefExpr' and x['n'] == pname and x.get('dk') == 'param':
+            p = g.parent_of(x)
+            while p is not None and p['k'] in F.CASTS:
+                p = g.parent_of(p)
+            if p is None:
+                continue
+            if p['k'] == 'BinaryOperator' and p['op'] == '=' and any(y is x for y in F.walk(p['c'][1])) and \
+                    F.strip(p['c'][0])['k'] in ('MemberExpr', 'ArraySubscriptExpr', 'UnaryOperator'):
+                return True
+            if p['k'] == 'ReturnStmt':
+                return True
+            if p['k'] == 'CallExpr' and (p.get('callee') or '').endswith('push') and F.call_args(p) and \
+                    any(y is x for y in F.walk(F.call_args(p)[-1])):
+                return True
+    return False
+
+
+def rf2(run, units=('mir', 'gen', 'c2mir')):
+    rule = 'RF2'
+    run.rule(rule, 'every container (VARR, HTAB, bitmap) created into a field of a context or object is destroyed through that field '
+                   'somewhere in the unit; destroy calls in finish functions are guarded by nothing but a null test of the same field; '
+                   'a container created into a local variable is destroyed in the same function on every path or handed on')
+    for u in units:
+        tu = run.tu(u)
+        created, destroyed = {}, {}
+        locals_ = []
+        for f in tu.func_list:
+            if f.name.startswith(('VARR_', 'HTAB_', 'bitmap_', 'DLIST_')):
+                continue
+            for n in f.walk():
+                if n['k'] != 'CallExpr' or not n.get('callee'):
+                    continue
+                c = n['callee']
+                if CRE.match(c):
+                    tgt = _target_of_create(f, n)
+                    k = _key(f, tgt)
+                    if k is None:
+                        continue
+                    created.setdefault(k, []).append((f, n))
+                    if k[0] == 'local':
+                        locals_.append((f, n, k[2]))
+                elif DES.match(c):
+                    a = F.strip(F.call_args(n)[0])
+                    tgt = F.strip(a['c'][0]) if a['k'] == 'UnaryOperator' and a['op'] == '&' else a
+                    k = _key(f, tgt)
+                    if k is not None:
+                        destroyed.setdefault(k, []).append((f, n))
+        # (A) field created => field destroyed
+        for k, sites in sorted(created.items(), key=lambda kv: str(kv[0])):
+            if k[0] != 'field':
+                continue
+            f, n = sites[0]
+            ok = k in destroyed
+            run.ob(rule, (u, 'pair') + k[1:], ok, {'unit': u, 'field': '%s.%s' % (k[1], k[2]), 'created in': sorted({s[0].name for s in sites}),
+                                                   'destroyed in': sorted({s[0].name for s in destroyed.get(k, [])})})
+            if not ok:
+                run.violation(rule, f, 'container %s.%s' % (k[1], k[2]),
+                              'the container %s.%s created in %s is never destroyed: its storage is not returned to the allocator at finish'
+                              % (k[1], k[2], f.name), line=n['l'])
+        # (B) destroy guarded only by null tests of the same container (or loops)
+        for k, sites in destroyed.items():
+            if k[0] != 'field':
+                continue
+            for f, n in sites:
+                arg = F.strip(F.call_args(n)[0])
+                tgt = F.src(F.strip(arg['c'][0])) if arg['k'] == 'UnaryOperator' and arg['op'] == '&' else F.src(arg)
+                bad = None
+                child = n
+                for a in f.ancestors(n):
+                    if a['k'] == 'IfStmt':
+                        c = F.strip(a['c'][0])
+                        in_then = a['c'][1] is not None and any(x is n for x in F.walk(a['c'][1]))
+                        txt = F.src(c)
+                        def conj(e):
+                            e = F.strip(e)
+                            if e['k'] == 'BinaryOperator' and e['op'] == '&&':
+                                return conj(e['c'][0]) + conj(e['c'][1])
+                            return [e]
+                        parts = conj(c)
+                        if in_then and any(pp['k'] == 'BinaryOperator' and pp['op'] == '!=' and F.const_value(F.strip(pp['c'][1])) == 0
+                                           and F.src(F.strip(pp['c'][0])) == tgt for pp in parts):
+                            continue
+                        nullt = (c['k'] == 'BinaryOperator' and c['op'] == '!=' and F.const_value(F.strip(c['c'][1])) == 0) or c['k'] in ('DeclRefExpr', 'MemberExpr')
+                        if in_then and nullt and (tgt in txt or txt.strip('()').split(' ')[0] in tgt):
+                            continue
+                        if in_then and nullt:
+                            continue  # null test of an enclosing object (ctx == NULL early structure)
+                        bad = txt
+                        break
+                run.ob(rule, (u, 'guard', f.name, n['l']), bad is None)
+                if bad is not None:
+                    run.violation(rule, f, 'conditional destroy of %s' % tgt,
+                                  '%s destroys %s only under the condition [%s], which is not a null test of the container: on the other '
+                                  'path the container leaks' % (f.name, tgt, bad[:80]), line=n['l'])
+        # (C) local containers: destroyed on every path or handed on
+        for f, n, name in locals_:
+            uses = [x for x in f.walk() if x['k'] == 'DeclRefExpr' and x['n'] == name]
+            handed = False
+            for x in uses:
+                p = f.parent_of(x)
+                while p is not None and p['k'] in F.CASTS:
+                    p = f.parent_of(p)
+                if p is None:
+                    continue
+                if p['k'] == 'CallExpr' and not CRE.match(p.get('callee') or '') and not DES.match(p.get('callee') or '') \
+                        and not (p.get('callee') or '').startswith(('VARR_', 'HTAB_', 'bitmap_')):
+                    g = tu.funcs.get(p.get('callee') or '')
+                    if g is None:
+                        handed = True  # unknown callee may keep it
+                    else:
+                        idx = [i for i, a in enumerate(F.call_args(p)) if any(y is x for y in F.walk(a))]
+                        if idx and idx[0] < len(g.params) and _param_kept(g, g.params[idx[0]]['n']):
+                            handed = True
+                if p['k'] == 'CallExpr' and (p.get('callee') or '').endswith('push') and F.call_args(p)[-1] is not None and \
+                        any(y is x for y in F.walk(F.call_args(p)[-1])):
+                    handed = True
+                if p['k'] == 'BinaryOperator' and p['op'] == '=' and any(y is x for y in F.walk(p['c'][1])):
+                    handed = True
+                if p['k'] == 'ReturnStmt':
+                    handed = True
+            dk = ('local', f.name, name)
+            if handed:
+                run.ob(rule, (u, 'local', f.name, name), True, {'function': f.name, 'local container': name, 'verdict': 'handed on'})
+                continue
+            ds = destroyed.get(dk, [])
+            cfg = f.cfg
+            db = set()
+            for g, d in ds:
+                b = cfg.block_of(d)
+                if b is not None:
+                    db.add(b)
+            cb = cfg.block_of(n)
+            ok = bool(db) and cb is not None and (cb in db or not (cfg.exit in cfg.reachable_from(cb, avoid=lambda b: b in db and b != cb)))
+            # error exits (noreturn) do not count as leaks
+            if not ok and db and cb is not None:
+                nor = {b for b in cfg.blocks if cfg.blocks[b].noreturn}
+                ok = cfg.exit not in cfg.reachable_from(cb, avoid=lambda b: (b in db and b != cb) or b in nor)
+            run.ob(rule, (u, 'local', f.name, name), ok, {'function': f.name, 'local container': name, 'destroyed on every path': ok})
+            if not ok:
+                run.violation(rule, f, 'local container %s' % name, 'the container %s created in %s is not destroyed on every path to the '
+                              'function\'s exit and is not handed to anyone' % (name, f.name), line=n['l'])
